@@ -71,7 +71,11 @@ fn timeline(rep: &mut Report, rng: &mut Rng, ivl_ms: u64, to_ms: u64, v2: bool, 
   let to = Duration::from_millis(to_ms);
   let margin = Duration::from_micros(1500);
   // specification state
-  let mut last_activity = Instant::now();
+  // the engine stamps activity with its own clock reading somewhere inside the call that carries the event: the
+  // harness brackets that instant with a reading before (lo) and after (hi) the call and judges "too early"
+  // against the earliest and "missing" against the latest possibility (a preempted thread must not turn into a verdict)
+  let mut act_lo = Instant::now();
+  let mut act_hi = act_lo;
   let mut waiting: Option<Instant> = None; // ping time
   let mut log: Vec<String> = vec![];
   let t0 = Instant::now();
@@ -105,6 +109,7 @@ fn timeline(rep: &mut Report, rng: &mut Rng, ivl_ms: u64, to_ms: u64, v2: bool, 
     }
     let sent_before = side.sent.len();
     let err_before = side.errors.len();
+    let t_ev = Instant::now();
     match e {
       Ev::Sleep(ms) => {
         std::thread::sleep(Duration::from_millis(*ms));
@@ -118,7 +123,7 @@ fn timeline(rep: &mut Report, rng: &mut Rng, ivl_ms: u64, to_ms: u64, v2: bool, 
         let emitted = parse_sent(&side.sent[sent_before..].iter().flat_map(|b| b.iter().copied()).collect::<Vec<u8>>());
         let pings = emitted.iter().filter(|f| f.command && f.body.starts_with(b"\x04PING")).count();
         let closed_now = side.closed();
-        log.push(format!("+{:?} tick -> pings={} closed={} (since_activity={:?}, waiting_for={:?})", t0.elapsed(), pings, closed_now, now.duration_since(last_activity), waiting.map(|p| now.duration_since(p))));
+        log.push(format!("+{:?} tick -> pings={} closed={} (since_activity={:?}, waiting_for={:?})", t0.elapsed(), pings, closed_now, now.duration_since(act_hi), waiting.map(|p| now.duration_since(p))));
         if v2 {
           if !emitted.is_empty() || closed_now {
             violation(rep, "v2_heartbeat_output", format!("a ZMTP/2.0 session produced heartbeat output on tick ({} frames, closed={})", emitted.len(), closed_now), &log, side.order.contains('T'));
@@ -139,12 +144,13 @@ fn timeline(rep: &mut Report, rng: &mut Rng, ivl_ms: u64, to_ms: u64, v2: bool, 
             }
           }
           None => {
-            let el = now.duration_since(last_activity);
+            let el = now.duration_since(act_hi); // at least this long since the last activity
+            let el_max = now.duration_since(act_lo); // at most this long
             if closed_now {
               violation(rep, "live_peer_closed", format!("tick closed a connection with no PING outstanding ({:?} since last activity)", el), &log, side.order.contains('T'));
             }
-            if el + margin < ivl && pings > 0 {
-              violation(rep, "ping_too_early", format!("PING sent {:?} after the last activity, sooner than HEARTBEAT_IVL {:?}", el, ivl), &log, side.order.contains('T'));
+            if el_max + margin < ivl && pings > 0 {
+              violation(rep, "ping_too_early", format!("PING sent at most {:?} after the last activity, sooner than HEARTBEAT_IVL {:?}", el_max, ivl), &log, side.order.contains('T'));
             }
             if el >= ivl + margin && pings == 0 && !closed_now {
               violation(rep, "ping_missing", format!("no PING although {:?} passed since the last activity (HEARTBEAT_IVL {:?})", el, ivl), &log, side.order.contains('T'));
@@ -163,7 +169,7 @@ fn timeline(rep: &mut Report, rng: &mut Rng, ivl_ms: u64, to_ms: u64, v2: bool, 
       }
       Ev::InboundData => {
         let _ = side.feed(&enc(Frame::data(b"traffic", false)));
-        last_activity = Instant::now();
+        (act_lo, act_hi) = (t_ev, Instant::now());
         // traffic flowing is proof of life: the spec stops waiting
         if waiting.is_some() {
           log.push(format!("+{:?} inbound data while a PING is outstanding (peer is alive)", t0.elapsed()));
@@ -176,20 +182,20 @@ fn timeline(rep: &mut Report, rng: &mut Rng, ivl_ms: u64, to_ms: u64, v2: bool, 
       }
       Ev::OutboundWrite => {
         side.eng.record_activity();
-        last_activity = Instant::now();
+        (act_lo, act_hi) = (t_ev, Instant::now());
         log.push(format!("+{:?} outbound write (record_activity)", t0.elapsed()));
       }
       Ev::Pong(good) => {
         let ctx: Vec<u8> = if *good { vec![] } else { rng.bytes(12) };
         let _ = side.feed(&enc(refzmtp::pong(&ctx)));
-        last_activity = Instant::now();
+        (act_lo, act_hi) = (t_ev, Instant::now());
         waiting = None;
         log.push(format!("+{:?} PONG arrives (ctx {} bytes)", t0.elapsed(), ctx.len()));
       }
       Ev::PeerPing(n) => {
         let ctx = rng.bytes(*n);
         let _ = side.feed(&enc(refzmtp::ping(300, &ctx)));
-        last_activity = Instant::now();
+        (act_lo, act_hi) = (t_ev, Instant::now());
         if waiting.is_some() {
           waiting = None;
           side.order.push('T');
@@ -209,7 +215,7 @@ fn timeline(rep: &mut Report, rng: &mut Rng, ivl_ms: u64, to_ms: u64, v2: bool, 
       Ev::MalformedPing => {
         let _ = side.feed(&enc(Frame::cmd(b"\x04PING\x00")));
         if !side.closed() {
-          last_activity = Instant::now();
+          (act_lo, act_hi) = (t_ev, Instant::now());
           if waiting.is_some() {
             waiting = None;
             side.order.push('T');
@@ -220,7 +226,7 @@ fn timeline(rep: &mut Report, rng: &mut Rng, ivl_ms: u64, to_ms: u64, v2: bool, 
       Ev::MalformedPong => {
         let _ = side.feed(&enc(Frame::cmd(b"\x03PON")));
         if !side.closed() {
-          last_activity = Instant::now();
+          (act_lo, act_hi) = (t_ev, Instant::now());
           if waiting.is_some() {
             waiting = None;
             side.order.push('T');
@@ -301,9 +307,11 @@ fn pair_timeline(rep: &mut Report, rng: &mut Rng, mech: Mech, ivl_ms: u64, to_ms
   let to = Duration::from_millis(to_ms);
   let margin = Duration::from_micros(1500);
   let cfgname = format!("{:?} ivl={}ms timeout={}ms peer_pings={}", mech, ivl_ms, to_ms, b_pings);
-  let mut last_activity = Instant::now();
+  // (lo, hi) bracket of the instant the engine stamped its last activity - see timeline()
+  let mut act_lo = Instant::now();
   // the handshake's last bytes count as activity for A
   p.a.eng.record_activity();
+  let mut act_hi = Instant::now();
   let mut waiting: Option<Instant> = None;
   // the two directions of the byte stream, in order, never dropped (it is a stream): what is queued has been
   // written by one engine and not yet read by the other - a peer that is slow or dead simply does not read
@@ -349,9 +357,10 @@ fn pair_timeline(rep: &mut Report, rng: &mut Rng, mech: Mech, ivl_ms: u64, to_ms
       if !to_a.is_empty() {
         let errs = p.a.errors.len();
         let chunk = std::mem::take(&mut to_a);
+        let t_lo = Instant::now();
         let out = p.a.feed(&chunk);
         to_b.extend(out);
-        last_activity = Instant::now();
+        (act_lo, act_hi) = (t_lo, Instant::now());
         let failed = p.a.errors.len() > errs || p.a.closed();
         if failed {
           violation!("inbound_rejected", format!("A rejected {} bytes the peer engine had written: {:?}", chunk.len(), p.a.errors.last()));
@@ -381,7 +390,7 @@ fn pair_timeline(rep: &mut Report, rng: &mut Rng, mech: Mech, ivl_ms: u64, to_ms
         let pinged = !wire.is_empty();
         let closed_now = p.a.closed();
         to_b.extend(wire.iter().copied());
-        log.push(format!("+{:?} tick -> {} bytes out, closed={} (since_activity={:?}, waiting_for={:?})", t0.elapsed(), wire.len(), closed_now, now.duration_since(last_activity), waiting.map(|w| now.duration_since(w))));
+        log.push(format!("+{:?} tick -> {} bytes out, closed={} (since_activity={:?}, waiting_for={:?})", t0.elapsed(), wire.len(), closed_now, now.duration_since(act_hi), waiting.map(|w| now.duration_since(w))));
         match waiting {
           Some(pt) => {
             let el = now.duration_since(pt);
@@ -396,12 +405,13 @@ fn pair_timeline(rep: &mut Report, rng: &mut Rng, mech: Mech, ivl_ms: u64, to_ms
             }
           }
           None => {
-            let el = now.duration_since(last_activity);
+            let el = now.duration_since(act_hi);
+            let el_max = now.duration_since(act_lo);
             if closed_now {
               violation!("live_peer_closed", format!("tick closed a connection with no PING outstanding ({:?} since last activity)", el));
             }
-            if el + margin < ivl && pinged {
-              violation!("ping_too_early", format!("PING sent {:?} after the last activity, sooner than HEARTBEAT_IVL {:?}", el, ivl));
+            if el_max + margin < ivl && pinged {
+              violation!("ping_too_early", format!("PING sent at most {:?} after the last activity, sooner than HEARTBEAT_IVL {:?}", el_max, ivl));
             }
             if el >= ivl + margin && !pinged && !closed_now {
               violation!("ping_missing", format!("no PING although {:?} passed since the last activity (HEARTBEAT_IVL {:?})", el, ivl));
@@ -463,10 +473,11 @@ fn pair_timeline(rep: &mut Report, rng: &mut Rng, mech: Mech, ivl_ms: u64, to_ms
         shape.push("outbound_data");
         let mut fb = rzmq::FrameBatch::new();
         fb.push(util::msg(b"traffic-to-peer".to_vec(), false));
+        let t_lo = Instant::now();
         let out = p.a.eng.on_app_message(fb);
         let wire = p.a.absorb(out);
         p.a.eng.record_activity();
-        last_activity = Instant::now();
+        (act_lo, act_hi) = (t_lo, Instant::now());
         data_sent_to_b += 1;
         log.push(format!("+{:?} outbound data ({} bytes) written", t0.elapsed(), wire.len()));
         to_b.extend(wire);
@@ -698,14 +709,20 @@ async fn session_case(rep: &mut Report, answering: bool, keep_traffic: bool, ivl
     let _ = ctx.term().await;
     return;
   }
-  let bound = Duration::from_millis(2 * ivl + to + 1500);
+  let bound = Duration::from_millis(2 * ivl + to) + util::scaled(Duration::from_millis(1500));
   let observe = if answering || keep_traffic { Duration::from_millis(4 * (ivl + to)) } else { bound };
   let t0 = Instant::now();
   let mut buf: Vec<u8> = vec![];
   let mut pings = 0;
   let mut closed_at: Option<Duration> = None;
   let mut last_traffic = Instant::now();
+  // the raw peer is only "live" if this loop itself gets the CPU: its longest turn is recorded, and a verdict against
+  // rzmq is only drawn when the peer was never away for more than a third of the heartbeat timeout
+  let mut longest_turn = Duration::ZERO;
+  let mut turn_start = Instant::now();
   while t0.elapsed() < observe {
+    longest_turn = longest_turn.max(turn_start.elapsed());
+    turn_start = Instant::now();
     let (b, eof) = raw.read_for(Duration::from_millis(20), 0).await;
     buf.extend_from_slice(&b);
     loop {
@@ -734,7 +751,9 @@ async fn session_case(rep: &mut Report, answering: bool, keep_traffic: bool, ivl
   let mode = if answering { "answering" } else if keep_traffic { "traffic_no_pong" } else { "mute" };
   rep.case(&("session", mode, ivl, to), true);
   rep.count(&format!("session_pings_seen[{}]", mode), pings);
-  if answering || keep_traffic {
+  if (answering || keep_traffic) && longest_turn > Duration::from_millis(to / 3 + 20) {
+    rep.inconclusive(format!("session {}: the raw peer itself was off the CPU for {:?} (timeout {} ms) - not a live peer, no verdict", mode, longest_turn, to));
+  } else if answering || keep_traffic {
     if let Some(t) = closed_at {
       rep.violation(format!("session_live_peer_disconnected|{}", mode), format!("a live raw peer ({}) was disconnected after {:?} (IVL {}ms, TIMEOUT {}ms, {} PINGs seen)", mode, t, ivl, to, pings), json!({"pings": pings}));
     } else if answering && pings == 0 {
